@@ -104,6 +104,13 @@ def _pending_then_assign(objs, kind):
     return first, [(t.label, sorted(nm(b) for b in t.books), t.books.count(), len(t.books)) for t in (t0, t1, t2, t3)], sorted(nm(t) for t in b0.tags)
 
 
+def _membership(objs):
+    tags = sorted(objs['tags'], key=lambda t: t.id); books = sorted(objs['books'], key=lambda b: b.id); authors = sorted(objs['authors'], key=lambda a: a.id)
+    first = sorted(nm(b) for b in tags[3].books), sorted(nm(t) for t in books[1].tags)                      # two complete loads; the books / tags they contain get partly known reverse sides
+    return (first, [[b in t.books for b in books] for t in tags], [[t in b.tags for t in tags] for b in books], [[b in a.books for b in books[:4]] for a in authors],
+            [(t.label, t.books.count(), sorted(nm(b) for b in t.books)) for t in tags])
+
+
 def _pending_then_read(objs):
     t0, t1, t2, t3 = (_tag(objs, 't%d' % i) for i in range(4))
     b0, b2, b5 = _by(objs['books'], 'b0'), _by(objs['books'], 'b2'), _by(objs['books'], 'b5')
@@ -142,6 +149,8 @@ PROGRAMS = {
     'pending_add_then_assign': lambda M, objs: _pending_then_assign(objs, 'add'),
     'pending_remove_then_assign': lambda M, objs: _pending_then_assign(objs, 'remove'),
     'pending_changes_then_read_everything': lambda M, objs: _pending_then_read(objs),
+    # membership questions asked of collections that were never touched, after OTHER collections were iterated (which fills the reverse sides partly)
+    'membership_after_partial_loads': lambda M, objs: _membership(objs),
     'lazy_attributes_only': lambda M, objs: ([(a.bio, a.name) for a in objs['authors']], [(b.notes, b.title, getattr(b, 'edition', '-')) for b in objs['books']]),
 }
 VARIANTS = ('default', 'lazy', 'no_batch', 'batch_at_once', 'tiny_batches')
@@ -175,7 +184,7 @@ def observe(variant, strategy, program):
             if strategy == 'reverse_order':
                 rev = {k: list(reversed(v)) for k, v in objs.items()}
                 r = PROGRAMS[program](M, rev)
-                if program.startswith('pending_'): return tuple(r)          # these programs pick their objects by name: their output does not follow the order of the lists
+                if program.startswith('pending_') or program.startswith('membership_'): return tuple(r)          # these programs pick their objects by name: their output does not follow the order of the lists
                 return tuple(list(reversed(part)) if len(part) != 1 else part for part in r)
             return tuple(PROGRAMS[program](M, objs))
         finally:
@@ -206,5 +215,5 @@ CONTRACTS = [
     Contract('same_observations', ['pony.orm.core:Set.load', 'pony.orm.core:Query.prefetch', 'pony.orm.core:Query._do_prefetch', 'pony.orm.core:Set.prefetch_load_all',
                                    'pony.orm.core:Entity._prefetch_load_all_', 'pony.orm.core:Entity._load_', 'pony.orm.core:EntityMeta._load_many_', 'pony.orm.core:Attribute.load'],
              _configs, _case, [('every_loading_strategy_observes_the_baseline_data', lambda cfg, i, path: path.outcome == 'ret' and path.value == [])], level='bounded',
-             bound='5 model variants x 5 loading strategies x 12 observation programs (two of them read after a refused delete, three after pending collection changes) on one stored data set'),
+             bound='5 model variants x 5 loading strategies x 13 observation programs (two of them read after a refused delete, three after pending collection changes, one asks membership questions after partial loads) on one stored data set'),
 ]
